@@ -81,6 +81,7 @@ func (cx *Ctx) endpointTable(fn *ssa.Function) (map[string]map[string]bool, []st
 
 func checkC11(cx *Ctx, r *Report) {
 	w, fx := cx.W, cx.Fx
+	cx.checkContextKeys(r)
 	cx.checkNoIndentedEncoding(r)
 	cx.checkRequestNotRewritten(r)
 	// storage is asked with the request's context (which carries the issuer in effect)
